@@ -40,10 +40,10 @@ MUTANTS = [
      "\tcase config.CollisionInterrupt:\n\t\tif d.activeNotesCounter[channel][note] > 0 {", "\tcase config.CollisionInterrupt:\n\t\tif d.activeNotesCounter[channel][note] > 1 {", ["C03"]),
     ("c04-mod-15", DEV, "\tchannel := (d.channel + key.ChannelOffset) % 16\n\n\tvar event midi.Event", "\tchannel := (d.channel + key.ChannelOffset) % 15\n\n\tvar event midi.Event", ["C04"]),
     ("c04-channel-saturates-early", DEV, "\tif d.channel != 15 {\n\t\td.channel++", "\tif d.channel < 14 {\n\t\td.channel++", ["C04"]),
-    ("c04-octave-reset-to-default", DEV, "func (d *Device) OctaveReset() {\n\td.octave = 0", "func (d *Device) OctaveReset() {\n\td.octave = int8(d.config.Defaults.Octave)", ["C04"]),
+    ("c04-octave-reset-to-default", DEV, "func (d *Device) OctaveReset() {\n\td.octave = 0", "func (d *Device) OctaveReset() {\n\td.octave = int(d.config.Defaults.Octave)", ["C04"]),
     ("c04-int8-octave", DEV, "noteCalculatored := int(note) + int(d.octave)*12 + int(d.semitone)\n\tif noteCalculatored < 0 || noteCalculatored > 127 {\n\t\treturn\n\t}\n\tnote = uint8(noteCalculatored)\n\tchannel",
      "noteCalculatored := int(note) + int(d.octave*12) + int(d.semitone)\n\tif noteCalculatored < 0 || noteCalculatored > 127 {\n\t\treturn\n\t}\n\tnote = uint8(noteCalculatored)\n\tchannel", ["C04"]),
-    ("c13-panic-clears-tracker", DEV, "func (d *Device) Panic() {\n", "func (d *Device) Panic() {\n\td.noteTracker = make(map[evdev.EvCode][2]byte, 32)\n", ["C13"]),
+    ("c13-panic-clears-tracker", DEV, "func (d *Device) Panic() {\n", "func (d *Device) Panic() {\n\td.noteTracker = make(map[keyID][2]byte, 32)\n", ["C13"]),
     ("c13-panic-channel-1", DEV, "d.outputEvents <- midi.NoteEvent(midi.NoteOff, d.channel, note, 0)\n\t}\n\tif !d.noLogs {\n\t\tlog.Info(\"Panic!\"",
      "d.outputEvents <- midi.NoteEvent(midi.NoteOff, 0, note, 0)\n\t}\n\tif !d.noLogs {\n\t\tlog.Info(\"Panic!\"", ["C13"]),
     ("c13-panic-127-notes", DEV, "for note := uint8(0); note < 128; note++ {\n\t\td.outputEvents <- midi.NoteEvent(midi.NoteOff, d.channel",
@@ -71,7 +71,7 @@ MUTANTS = [
     ("c08-first-event-deduped", EVS, "\tif seen && lastValue == value {", "\tif (seen || !seen) && lastValue == value {", ["C08", "C06"]),
     ("c08-opposite-band-not-released", EVS, "\t\tif value < 0.49 {\n\t\t\td.AnalogNoteOff(identifier, ie)\n\t\t}\n\t\tif value > -0.49 {\n\t\t\td.AnalogNoteOff(identifierNeg, ie)\n\t\t}",
      "\t\tif value < 0.49 && value > -0.5 {\n\t\t\td.AnalogNoteOff(identifier, ie)\n\t\t}\n\t\tif value > -0.49 && value < 0.5 {\n\t\t\td.AnalogNoteOff(identifierNeg, ie)\n\t\t}\n\t\tif value <= -0.5 {\n\t\t\tdefer d.AnalogNoteOff(identifier, ie)\n\t\t}\n\t\tif value >= 0.5 {\n\t\t\tdefer d.AnalogNoteOff(identifierNeg, ie)\n\t\t}", ["C08"]),
-    ("c07-repeat-value-stored-before-learning-filter", EVS, "\tshapedValue := value\n", "\tshapedValue := value\n\td.lastAnalogValue[ie.Source.Name][ie.Event.Code] = shapedValue\n", ["C07"]),
+    ("c07-repeat-value-stored-before-learning-filter", EVS, "\tshapedValue := value\n", "\tshapedValue := value\n\td.lastAnalogValue[identifier] = shapedValue\n", ["C07"]),
     ("c20-id-of-first-discovered-handler", "internal/pkg/input/device.go", "\t\tsort.SliceStable(dis, func(i, j int) bool {", "\t\tsort.SliceStable(append([]DeviceInfo{}, dis...), func(i, j int) bool {", ["C20"]),
     ("c13-panic-swallowed-by-held-pair", EVS, "\t\t\tif action == config.Panic || !d.checkDoubleActions() {", "\t\t\tif !d.checkDoubleActions() {", ["C13"]),
     ("c19-watcher-errors-not-read", "internal/pkg/midi/device/config/monitor.go", "\t\t\tcase err, ok := <-watcher.Errors:", "\t\t\tcase err, ok := <-make(chan error):", ["C19"]),
